@@ -118,6 +118,7 @@ def rows():
         add("bytes", "to_bytes", a, (0, "middle"), R("ValueError"))
         for p in (3, 5, 7, 251, 65537):
             add("nt", "fail_if_divisible_by", a, (p,), R("ValueError") if a % p == 0 else ("none",))
+        add("nt", "fail_if_divisible_by", a, (0,), R("ZeroDivisionError"))
     for n in (0, 1, 2, 3, 255, 256, (1 << 32) + 1, (1 << 53) + 1, W - 1, SQ, (1 << 520) + 3):
         add("sqrt", "is_perfect_square", n * n, (), ("bool", True))
         add("sqrt", "sqrt", n * n, (), I(n))
@@ -163,8 +164,8 @@ def _monty_pow(i, args, kw, st, node):
             len(base) == len(exp) == len(modulus) == ln and isinstance(out, (bytearray, ABytes)) and \
             (len(out) if isinstance(out, bytearray) else out.n) == ln:
         m = int.from_bytes(modulus, "big")
-        if m % 2 == 0:
-            return 1
+        if m % 2 == 0 or m == 1:
+            return 17       # ERR_MODULUS: mont_context_init accepts odd moduli above 1 only (c_modexp checks the C side)
         r = pow(int.from_bytes(base, "big"), int.from_bytes(exp, "big"), m)
         if isinstance(out, bytearray):
             out[:] = r.to_bytes(ln, "big")
@@ -268,8 +269,6 @@ class Backend(object):
 def matches(got, exp):
     if exp[0] == "raises":
         return got[0] == "raises" and bool(got[1] & exp[1])
-    if exp[0] == "bool" and got[0] in ("bool", "int"):
-        return bool(got[1]) == exp[1] and got[1] in (0, 1, True, False)
     return got == exp
 
 
